@@ -499,7 +499,10 @@ class C06(Prop, ScriptGen):
     title = 'Script evaluation agrees with reference Script semantics on every program'
     lean_targets = ['BtcVerif.Props.C06']
     table_groups = ['Opcodes']
-    theorems = []
+    theorems = ['BtcVerif.C06.' + t for t in (
+        'castToBool_equiv', 'num_encode_equiv', 'num_decode_equiv', 'num_operand_equiv', 'tokenise_equiv',
+        'predicates_equiv', 'step_equiv', 'eval_equiv_partial', 'eval_fails_iff_partial', 'eval_stack_partial',
+        'verify_equiv_partial')]
     anchors = [('bitcoin/core/scripteval.py', f) for f in (
         '_EvalScript', '_CheckMultiSig', '_CheckSig', '_BinOp', '_UnaryOp', '_CastToBool', '_CastToBigNum',
         '_CheckExec', 'EvalScript', 'VerifyScript')] + \
